@@ -97,8 +97,9 @@ pub trait ExtractAttribute {
             use ::darling::ToTokens;
 
             for __attr in #attrs_accessor {
-                // Filter attributes based on name
-                match ::darling::export::ToString::to_string(&__attr.path().clone().into_token_stream()).as_str() {
+                // Filter attributes based on name. Token streams may be rendered with spaces around
+                // `::`, which must not keep a multi-segment path from matching its declared name.
+                match ::darling::export::ToString::to_string(&__attr.path().clone().into_token_stream()).replace(' ', "").as_str() {
                     #parse_handled
                     #forward_unhandled
                 }
